@@ -191,10 +191,9 @@ pub fn lockstep_irq(m: &mut Machine, r: &mut Ref, assembly: bool, which: Which, 
                     );
                 }
             } else {
-                if !d.is_empty() {
-                    // C15 does not judge semantics; lose sync -> end the sequence
-                    return (StepEnd::End("semantic-divergence(C01's subject)"), info);
-                }
+                // the documented count is a function of the state *before* the instruction (form, mode,
+                // address classes, flags for JR, operands for MUL/DIV): it is judged first, whatever the
+                // instruction's result turned out to be
                 if let Some(n) = edges {
                     let words = steps(up.op, up.op2, up.rd, up.rs) + entry_words;
                     let exp = words + r.ram_accesses;
@@ -212,6 +211,10 @@ pub fn lockstep_irq(m: &mut Machine, r: &mut Ref, assembly: bool, which: Which, 
                             info,
                         );
                     }
+                }
+                if !d.is_empty() {
+                    // C15 does not judge semantics; lose sync -> end the sequence
+                    return (StepEnd::End("semantic-divergence(C01's subject)"), info);
                 }
             }
             (StepEnd::Continue, info)
